@@ -442,7 +442,9 @@ class C02(LockCheck):
                 'CppUtil.Props.c02_fair_termination_pess', 'CppUtil.Props.c02_fair_termination_opt',
                 'CppUtil.Props.c02_closed_system_steps', 'CppUtil.Props.c02_fair_termination_nonvacuous',
                 'CppUtil.Props.c02_fair_termination_conv_pess', 'CppUtil.Props.c02_fair_termination_conv_opt',
-                'CppUtil.Props.c02_closed_system_conv_steps', 'CppUtil.Props.c02_fair_termination_conv_nonvacuous']
+                'CppUtil.Props.c02_closed_system_conv_steps', 'CppUtil.Props.c02_fair_termination_conv_nonvacuous',
+                'CppUtil.Props.c02_fair_termination_programs_pess', 'CppUtil.Props.c02_fair_termination_programs_opt',
+                'CppUtil.Props.c02_programs_steps', 'CppUtil.Props.c02_fair_termination_programs_nonvacuous']
     extra_modules = ['CppUtil.Props.McsBits']
     categories = []
     stuck_relevant = True
